@@ -82,7 +82,7 @@ def depFactsBefore : DepFacts :=
     collectSkip := .none }
 
 /-- fingerprints of the statements `depFacts` was read from (`getVarDependencies` is in `sourceHashes`)
-    and of `compDefineX` (as of 2d7bcd6: for `var v, ok = m[k]` / `<-c` it asks `nodeType` for the type
+    and of `compDefineX` (as of e4c80e1: for `var v, ok = m[k]` / `<-c` it asks `nodeType` for the type
     of the operand at once — `VarSpec.operandLater`, F15-9) -/
 def depHashes : List (String × String) :=
   [("gta: case defineXStmt", "51d7c97a02551840"),
